@@ -9,7 +9,7 @@ EXPLANATION = ('Value-flow normal forms of every built-in density compared with 
                'evaluated on), IsotropicGaussian sample / logp (quadratic part, normalising constant -(d/2) ln(2 pi sigma^2), symmetry under from<->to) / '
                'set_seed (overwrites the generator that sample consumes) / unnorm_logp. Tensor plumbing (reshape of literals, expand, squeeze) is '
                'quotiented out; f32-level accuracy and conditioning are not decided.')
-FLOORS = {'obligations': 37}   # counted on the reference tree; fewer instantiated obligations is reported, never passed silently
+FLOORS = {'obligations': 38}   # counted on the reference tree; fewer instantiated obligations is reported, never passed silently
 TECHNIQUE = 'value-flow normal form vs closed-form specification table; taint (dependence) rule; sibling agreement'
 D = 'distributions::'
 HALF = N(1) if False else T.div(T.ONE, N(2))
@@ -26,6 +26,9 @@ def need(ctx, oid, desc, **kw):
 
 def run(ctx):
     from .. import frame
+    _roots = [b for b in ctx.facts.bodies if ctx.facts.is_hand_written(b) and b['def_kind'] in ('Fn', 'AssocFn') and strip_generics(b['path']).startswith(('distributions::', '<distributions::'))
+              and 'Categorical' not in b['path'] and '::tests::' not in b['path']]
+    narrowing_budget(ctx, 'C15', 'distributions (densities, gradients, proposal)', _roots, {}, why='densities and gradients are computed in the element type of the caller; a conversion to a fixed narrower float type (or an f64 -> element-type read-back) on this path changes values for wider element types / back ends', sp=None)
     frame.shadowing(ctx, 'C15', [D + x for x in ('Gaussian2D', 'DiffableGaussian2D', 'IsotropicGaussian', 'Rosenbrock2D', 'RosenbrockND')])
     frame.no_override(ctx, 'C15', D + 'GradientTarget', 'unnorm_logp_and_grad',
                       why='NUTS obtains value and gradient through this provided method; an implementor that overrides it substitutes its own (unanalysed) gradient')
